@@ -2,5 +2,6 @@ INIT Init
 NEXT Next
 CONSTANT Depth = 1
 INVARIANT AcceptedBlockOk
+INVARIANT RefSelOk
 INVARIANT Emit
 CHECK_DEADLOCK FALSE
